@@ -34,7 +34,10 @@ def make_model(name):
             "sgd": lambda: SGDClassifier(max_iter=30, tol=None),                       # random_state=None: global RNG
             "rtree": lambda: DecisionTreeClassifier(splitter="random", max_depth=3),   # random_state=None: global RNG
             "dummy": lambda: DummyClassifier(strategy="uniform"),                     # predictions drawn from the global RNG
-            "logreg": lambda: LogisticRegression()}[name]()
+            "logreg": lambda: LogisticRegression(),
+            # warm_start: a model object fitted twice remembers the first fit -- every evaluation must start from a fresh clone
+            "sgd_warm": lambda: SGDClassifier(warm_start=True, max_iter=1, tol=None, eta0=0.05, learning_rate="constant",
+                                              random_state=0)}[name]()
 
 
 def make_utility(kind, model):
